@@ -13,7 +13,7 @@ package main
 // nothing the parser side does can change the chunk between reading and forwarding it
 // (frame obligations: RecordClientBuffer modifies only the report feed).
 //@ func handleClientMessages
-//@ requires[C07] reportFeed != nil && byteChan != nil && !closed(byteChan)
+//@ requires reportFeed != nil && byteChan != nil && !closed(byteChan)
 //@ requires[C19] server != client && unbox(server) != unbox(client) && allocated(byteChan)
 //@ let c0 = gc("rdbytes", client)
 //@ let w0 = gc("wr", server)
@@ -39,7 +39,7 @@ package main
 
 // Relay, server to client.
 //@ func handleServerMessages
-//@ requires[C07] reportFeed != nil
+//@ requires reportFeed != nil
 //@ requires[C19] server != client && unbox(server) != unbox(client)
 //@ let c0 = gc("rdbytes", server)
 //@ let w0 = gc("wr", client)
